@@ -1,7 +1,7 @@
 CONSTANTS
   MaxSteps = 4
   MaxConns = 2
-  Peers = {1, 2, 3}
+  Peers = {1, 3}
 INIT Init
 NEXT Next
 VIEW View0
